@@ -1326,6 +1326,10 @@ class Engine:
         if isinstance(tgt, ast.Name) and isinstance(value, ast.Attribute) and isinstance(val, SArr) \
                 and unparse(value) in self.c.fields and self.assigned_once(tgt.id):
             self.field_alias[unparse(value)] = tgt.id
+        if isinstance(tgt, ast.Name) and isinstance(value, ast.Name) and isinstance(val, SArr) and tgt.id != value.id:
+            # `b = a` makes b and a the same numpy array; arrays are values in this model, so a later element store
+            # through either name would not be seen through the other: such stores are outside the subset
+            self.__dict__.setdefault("_plain_aliases", set()).update((tgt.id, value.id))
         self.flush_guarded(st, s)
         return None
 
@@ -1365,6 +1369,8 @@ class Engine:
         if not isinstance(tgt.value, ast.Name):
             raise OutOfSubset("store through expression")
         name = tgt.value.id
+        if name in self.__dict__.get("_plain_aliases", ()):
+            raise OutOfSubset(f"element store through {name}, which is aliased by a plain assignment of an array")
         base = st.vars.get(name)
         txt = unparse(tgt)
         elts = self.index_list(tgt.slice, st, False, {})
